@@ -1,6 +1,5 @@
 package regions
 
-func vpDigit(i int) string { return string(rune('0' + i)) }
 
 func vpIntsEq(a, b []int) bool {
 	if len(a) != len(b) {
